@@ -197,7 +197,9 @@ var c09SharedTemplates = []string{"@globals.org_name @globals.limit", "@globals"
 	"@run.flow @run.flow.name", "@(json(run.flow))", "@urns", "@contact.channel", "@(format_location(fields.state))", "@(has_group(contact.groups, \"x\").match)", "@trigger.params @trigger.type", "@(has_text(\"\").match)",
 	// lookups in the shared location hierarchy, with and without a parent, for names that several locations answer to
 	"@(has_ward(\"Gisozi\", \"Gasabo\", \"Kigali City\").match) @(has_ward(\"Gisozi\", \"Nyarugenge\", \"Kigali City\").match) @(has_district(\"Central\", \"Kigali City\").match) @(has_district(\"Central\").match) @(has_state(\"Capital\").match)",
-	"@(title(contact.name)) @(title(\"sA ACORÍS é\")) @(upper(contact.name)) @(lower(contact.name))"}
+	"@(title(contact.name)) @(title(\"sA ACORÍS é\")) @(upper(contact.name)) @(lower(contact.name))",
+	// expressions whose evaluation collects warnings (deprecated context values), several per template
+	"@legacy_extra @(json(legacy_extra)) @legacy_extra", "@(legacy_extra) @(default(legacy_extra.x, 1)) @(legacy_extra)", "@(results) @(legacy_extra)"}
 
 type c09shared struct {
 	sa    flows.SessionAssets
